@@ -13,7 +13,7 @@ ASSUMPTIONS = ["on AuxPoW coins a block at/above the threshold carries a section
 CMP = [bb.cmp_exit, bb.cmp_names, bb.cmp_rows, bb.cmp_totals]
 
 
-def aux_block(r, coin, version, with_section, n1=None, n2=None, segwit_cb=False):
+def aux_block(r, coin, version, with_section, n1=None, n2=None, segwit_cb=False, parent_version=None):
     cb = K.Tx([(b"\0" * 32, 0xffffffff, GC.rb(r, r.randrange(2, 40)), 0xffffffff)], [(50 * 10**8, GC.spk(r, coin, "p2pkh"))])
     txs = [cb] + [K.Tx([(GC.rb(r, 32), r.randrange(3), GC.rb(r, r.randrange(0, 80)), 0xffffffff)], [(r.randrange(10**9), GC.spk(r, coin))]) for _ in range(r.randrange(0, 3))]
     sec = None
@@ -21,7 +21,7 @@ def aux_block(r, coin, version, with_section, n1=None, n2=None, segwit_cb=False)
         pcb = K.Tx([(b"\0" * 32, 0xffffffff, GC.rb(r, r.randrange(2, 100)), 0xffffffff)], [(r.randrange(1 << 40), b"\x51"), (0, b"\x6a\x24" + GC.rb(r, 36))])
         if segwit_cb:
             pcb.segwit = (1, 1, [[GC.rb(r, 32)]])
-        sec = K.auxpow_section(r, coinbase=pcb, nbranch1=n1, nbranch2=n2)
+        sec = K.auxpow_section(r, coinbase=pcb, nbranch1=n1, nbranch2=n2, parent_version=parent_version)
     return K.Block(txs, prev=GC.rb(r, 32), version=version, time=r.randrange(1, 1 << 32), nonce=r.randrange(1 << 32), auxpow=sec)
 
 
@@ -30,6 +30,14 @@ def hook_part(ctx, r):
     for coin in K.COINS:
         th = K.AUXPOW.get(coin)
         versions = [0x10100, 0x10101, 0x10102, 0x620101, 0x620102, 0x620103, 1, 0xffffffff, 0x7fffffff]
+        # the threshold is ONE 32-bit comparison: versions above it whose low (or high) 16 bits taken alone are below the
+        # threshold's, chain-id style versions of merged-mined coins, and versions below it whose low half is above
+        for base in (0x10101, 0x620102):
+            lo, hi = base & 0xffff, base >> 16
+            versions += [((hi + 1) << 16), ((hi + 1) << 16) | (lo - 1), ((hi + 5) << 16) | 4, (hi << 16) | 0xffff, ((hi - 1) << 16) | 0xffff if hi else lo,
+                         0x00020000, 0x20000000, 0x20000002, 0x00630004, 0x00010000 | lo, 0x80000000, 0x80000000 | base, 0x00ff0000, 0x01000000]
+        versions += [r.randrange(0x10000, 1 << 32) & ~0xffff | r.randrange(0, 0x102) for _ in range(4)] + [r.randrange(1 << 32) for _ in range(4)]
+        versions = list(dict.fromkeys(versions))
         for v in versions:
             for k in range(ctx.n(3, 20)):
                 want = th is not None and v >= th
@@ -126,6 +134,27 @@ def correspondence(ctx):
             GC.simple_layout(s, blocks)
             s.meta = {"straddle": coin, "xor": bool(xor)}
             scns.append(s)
+    # whole runs, with and without --verify, over AuxPoW blocks whose own version and whose PARENT header's version take the
+    # values merged mining produces: chain-id style versions (high half = a chain id, also the coin's own), version-bits
+    # versions, and the threshold's neighbours.  The section is opaque: nothing in it may influence acceptance or output
+    special = [0x00010101, 0x00010000, 0x0001ffff, 0x00620004, 0x00620102, 0x00620000, 1, 2, 0x20000000, 0x00020000, 0x7fffffff, 0xffffffff]
+    for k in range(ctx.n(12, 80)):
+        coin = ["namecoin", "dogecoin"][k % 2]
+        th = K.AUXPOW[coin]
+        blocks = GC.gen_chain(r, coin, 7, max_txs=2, auxpow_mix=False)
+        for j, b in enumerate(blocks[1:]):
+            b.version = r.choice([th, th + 1, ((th >> 16) + 1) << 16, 0x20000000, 0x00630004 if coin == "dogecoin" else 0x00020000, (th & ~0xffff) + 0x10000 + r.randrange(0, th & 0xffff)])
+            b.auxpow = K.auxpow_section(r, nbranch1=r.randrange(0, 6), nbranch2=r.randrange(0, 4), parent_version=special[(k + j) % len(special)])
+        prev = blocks[0].hash()
+        for b in blocks[1:]:
+            b.prev = prev
+            prev = b.hash()
+        s = K.Scenario(coin=coin, callback=r.choice(["csvdump", "csvdump", "unspentcsvdump"]))
+        GC.simple_layout(s, blocks)
+        if k % 2 == 0 or k % 3 == 0:
+            s.verify, s.start = True, 1
+        s.meta = {"parent-versions": k}
+        scns.append(s)
     bb.check(ctx, "auxpow-chains", scns, CMP, nontrivial=lambda s, m: s.coin in K.AUXPOW)
 
 
